@@ -7,7 +7,11 @@
 //!     frames_drop with payloads far beyond the pty buffer, a peer that drains at a generated
 //!     rate, and injected short writes / EAGAIN / EINTR (verif hook in `Tty::write`).  Every
 //!     flush-delimited chunk carries a unique header, so the bytes received on the master side
-//!     can be checked for order, exactly-once delivery and untorn chunks.
+//!     can be checked for order, exactly-once delivery and untorn chunks.  Sessions may raise
+//!     SIGWINCH between any two operations, and half of them run on a pty whose ioctl reports
+//!     no pixel size while the peer answers `CSI 18 t CSI 14 t`: the terminal object then takes
+//!     its size from escape sequences and answers the signal by queueing a size request of its
+//!     own behind the application's output.
 
 use crate::engine::*;
 use crate::pty::{Peer, Pty};
@@ -55,6 +59,8 @@ pub enum TOp {
     Poll(u8),
     PollUntilDrained,
     FramesDrop,
+    /// raise(SIGWINCH) in this process: the terminal object learns of it in its next poll
+    Winch,
 }
 
 #[derive(Clone, Debug, Serialize, Deserialize)]
@@ -67,6 +73,11 @@ pub enum Case {
         pause_us: usize,
         /// cyclic fault pattern for writes to the tty
         faults: Vec<Fault>,
+        /// the pty's ioctl reports no pixel size and the peer answers the size request
+        /// (`CSI 18 t CSI 14 t`): the terminal object takes its size from escape sequences and
+        /// reacts to SIGWINCH by writing that request into its own output queue
+        #[serde(default)]
+        size_by_escape: bool,
     },
     /// `Terminal::run_render` on a pseudo-terminal whose other end does not drain: the render
     /// loop falls behind and applies its frame dropping policy
@@ -260,9 +271,20 @@ struct Chunk {
 const WATCHDOG: Duration = Duration::from_secs(20);
 
 fn inconclusive(msg: &str) -> ! {
+    // in a worker process (isolated check) the verdict travels through the worker protocol:
+    // an `inconclusive/…` signature makes the engine stop with exit code 2
+    if std::env::args().any(|a| a == "--worker") {
+        worker_fail_and_exit(Fail::new("inconclusive/environment", msg.to_string()));
+    }
     eprintln!("INCONCLUSIVE: {msg}");
     std::process::exit(2);
 }
+
+/// what a terminal object that takes its size from escape sequences writes when it learns of a
+/// SIGWINCH (and once during its start-up handshake)
+const SIZE_REQUEST: &[u8] = b"\x1b[18t\x1b[14t";
+/// size reported by the peer of such a session: rows, columns, pixel height, pixel width
+const ESCAPE_SIZE: (u16, u16, u16, u16) = (24, 80, 480, 800);
 
 struct WriteHookGuard;
 impl Drop for WriteHookGuard {
@@ -536,11 +558,35 @@ fn check_render(rows: u16, cols: u16, total: u8, release_at: u8, filler: usize, 
         .label_if(filler > 0, "render:chunk-in-flight"))
 }
 
-fn check_pty(ops: &[TOp], bite: usize, pause_us: usize, faults: &[Fault]) -> Outcome {
+fn check_pty(ops: &[TOp], bite: usize, pause_us: usize, faults: &[Fault], size_by_escape: bool) -> Outcome {
     let pty = Pty::open().unwrap_or_else(|e| inconclusive(&format!("cannot open pty: {e}")));
     let peer = Peer::spawn(&pty);
+    if size_by_escape {
+        // no pixel size from the ioctl; the peer answers every `CSI 18 t CSI 14 t` it receives
+        pty.set_winsize_px(ESCAPE_SIZE.0, ESCAPE_SIZE.1, 0, 0);
+        *peer.state.size_reply.lock().unwrap() = Some(ESCAPE_SIZE);
+    }
     let mut term = SystemTerminal::open(&pty.slave_path)
         .map_err(|e| Fail::new("pty/open-error", format!("SystemTerminal::open failed: {e:?}")))?;
+    if size_by_escape {
+        // a window-size signal raised elsewhere in this process during the handshake leaves a
+        // size request queued: let it go out, so that our data starts at a boundary
+        let t0 = Instant::now();
+        while term.frames_pending() > 0 {
+            term.poll(Some(Duration::ZERO))
+                .map_err(|e| Fail::new("pty/poll-error", format!("poll failed: {e:?}")))?;
+            if t0.elapsed() > WATCHDOG {
+                inconclusive("output queue did not drain after the handshake");
+            }
+        }
+        let by_escape = term
+            .size()
+            .map(|s| s.pixels.height == ESCAPE_SIZE.2 as usize && s.pixels.width == ESCAPE_SIZE.3 as usize)
+            .unwrap_or(false);
+        if !by_escape || peer.state.size_answered.load(std::sync::atomic::Ordering::SeqCst) == 0 {
+            inconclusive("the terminal object did not fall back to escape sequences for its size");
+        }
+    }
     // everything of the handshake has been written; remember where our data starts
     let send0 = term.stats().send;
     if !peer.wait_received(send0, Duration::from_secs(5)) {
@@ -587,6 +633,8 @@ fn check_pty(ops: &[TOp], bite: usize, pause_us: usize, faults: &[Fault]) -> Out
     let mut open = false; // the last chunk is still open (no flush since its last write)
     let mut written_total = 0usize;
     let mut big = false;
+    let mut winches = 0usize;
+    let mut winch_with_backlog = false;
     let started = Instant::now();
 
     let begin_chunk = |chunks: &mut Vec<Chunk>, term: &mut SystemTerminal, written_total: &mut usize| -> Result<(), Fail> {
@@ -654,7 +702,7 @@ fn check_pty(ops: &[TOp], bite: usize, pause_us: usize, faults: &[Fault]) -> Out
                     // again and again: look at what has arrived so far
                     if checked.elapsed() > Duration::from_millis(500) {
                         let received = peer.received();
-                        validate_stream(&received[send0.min(received.len())..], &chunks, false)?;
+                        validate_stream(&received[send0.min(received.len())..], &chunks, false, size_by_escape)?;
                         checked = Instant::now();
                     }
                     if t0.elapsed() > WATCHDOG {
@@ -672,6 +720,20 @@ fn check_pty(ops: &[TOp], bite: usize, pause_us: usize, faults: &[Fault]) -> Out
                     c.droppable = true;
                 }
                 term.frames_drop();
+            }
+            TOp::Winch => {
+                // the window-size signal is not an operation of the terminal object: it ends
+                // nothing and makes nothing eligible for dropping.  The object notices it in its
+                // next poll (ioctl size: a Resize event, which this oracle ignores; size from
+                // escape sequences: a size request queued behind the pending output).
+                let units = term.frames_pending().saturating_sub(if open { 0 } else { 1 });
+                if units >= 2 {
+                    winch_with_backlog = true;
+                }
+                winches += 1;
+                unsafe {
+                    libc::raise(libc::SIGWINCH);
+                }
             }
         }
     }
@@ -696,7 +758,7 @@ fn check_pty(ops: &[TOp], bite: usize, pause_us: usize, faults: &[Fault]) -> Out
         }
         if checked.elapsed() > Duration::from_millis(500) {
             let received = peer.received();
-            validate_stream(&received[send0.min(received.len())..], &chunks, false)?;
+            validate_stream(&received[send0.min(received.len())..], &chunks, false, size_by_escape)?;
             checked = Instant::now();
         }
         if t0.elapsed() > WATCHDOG {
@@ -715,14 +777,18 @@ fn check_pty(ops: &[TOp], bite: usize, pause_us: usize, faults: &[Fault]) -> Out
     let received = peer.received();
     let data = &received[send0..send_total];
 
-    let present = validate_stream(data, &chunks, true)?;
+    let (present, requests) = validate_stream(data, &chunks, true, size_by_escape)?;
+    // (a session that raised SIGWINCH gets a signature of its own: if the signal is not needed
+    // for the loss, shrinking removes it and the plain signature remains)
+    let lost_sig = if winches > 0 { "pty/chunk-lost-after-sigwinch" } else { "pty/chunk-lost" };
     for (i, c) in chunks.iter().enumerate() {
         ensure!(
             present[i] || c.droppable,
-            "pty/chunk-lost",
-            "chunk #{i} ({} bytes, written at stream offset {}) never arrived although no frames_drop could discard it (it was started or written after the last drop)",
+            lost_sig,
+            "chunk #{i} ({} bytes, written at stream offset {}) never arrived although no frames_drop could discard it (it was started or written after the last drop){}",
             c.bytes.len(),
-            c.start
+            c.start,
+            if winches > 0 { format!("; {winches} SIGWINCH raised during the session, size taken from escape sequences: {size_by_escape}") } else { String::new() }
         );
     }
     // exactly the bytes counted as sent were received (nothing extra before the epilogue)
@@ -734,19 +800,46 @@ fn check_pty(ops: &[TOp], bite: usize, pause_us: usize, faults: &[Fault]) -> Out
         .label_if(fault_count.get() > 0, "injected-write-faults")
         .label_if(bite > 0, "throttled-peer")
         .label_if(dropped > 0, "chunks-dropped")
-        .label_if(chunks.iter().any(|c| c.droppable), "frames-drop-with-pending"))
+        .label_if(chunks.iter().any(|c| c.droppable), "frames-drop-with-pending")
+        .label_if(size_by_escape, "pty:size-from-escape-sequences")
+        .label_if(winches > 0, "pty:sigwinch")
+        .label_if(winches > 0 && size_by_escape, "pty:sigwinch+size-from-escape-sequences")
+        .label_if(winch_with_backlog, "pty:sigwinch-with->=2-chunks-pending")
+        .label_if(winch_with_backlog && size_by_escape, "pty:sigwinch-with->=2-chunks-pending+size-from-escape-sequences")
+        .label_if(requests > 0, "pty:size-requests-between-chunks"))
 }
 
 /// Parse the bytes received after the handshake: whole chunks only, in increasing order, each
 /// at most once.  With `complete == false` the data is a prefix of what will arrive: the last
 /// chunk may be cut short.  Returns which chunks are present.
-fn validate_stream(data: &[u8], chunks: &[Chunk], complete: bool) -> Result<Vec<bool>, Fail> {
+///
+/// `size_requests`: the session runs a terminal object that takes its size from escape
+/// sequences.  Such an object writes `CSI 18 t CSI 14 t` into its own output queue while it
+/// handles a SIGWINCH inside `poll` -- output of the library, not of the program, placed at a
+/// point of the program order where the program is inside `poll`, i.e. between two units of
+/// this harness (a poll always ends the unit being written).  The requests are recognised and
+/// skipped exactly there: in front of a chunk header or at the end of the stream.  A request
+/// anywhere else sits between bytes the program wrote without a poll in between and makes the
+/// chunk compare unequal.  Returns the number of requests skipped as well.
+fn validate_stream(data: &[u8], chunks: &[Chunk], complete: bool, size_requests: bool) -> Result<(Vec<bool>, usize), Fail> {
     let mut p = 0usize;
     let mut next = 0usize;
     let mut present = vec![false; chunks.len()];
+    let mut requests = 0usize;
     while p < data.len() {
         // which chunk starts here?
         let rest = &data[p..];
+        if size_requests {
+            if rest.starts_with(SIZE_REQUEST) {
+                requests += 1;
+                p += SIZE_REQUEST.len();
+                continue;
+            }
+            if !complete && rest.len() < SIZE_REQUEST.len() && SIZE_REQUEST.starts_with(rest) {
+                // still arriving
+                break;
+            }
+        }
         let found = (next..chunks.len()).find(|&i| {
             let h = &chunks[i].header;
             if rest.len() >= h.len() { rest.starts_with(h) } else { !complete && h.starts_with(rest) }
@@ -769,6 +862,15 @@ fn validate_stream(data: &[u8], chunks: &[Chunk], complete: bool) -> Result<Vec<
         }
         if end > data.len() || data[p..end] != c.bytes[..] {
             let upto = (0..c.bytes.len().min(data.len() - p)).find(|&k| data[p + k] != c.bytes[k]).unwrap_or(data.len() - p);
+            if size_requests && data[p + upto..].starts_with(SIZE_REQUEST) {
+                return Err(Fail::new(
+                    "pty/size-request-inside-chunk",
+                    format!(
+                        "chunk #{i} ({} bytes) is interrupted at byte {upto} by the library's size request CSI 18 t CSI 14 t: the program wrote these bytes without polling in between, they must reach the tty as one exact concatenation",
+                        c.bytes.len()
+                    ),
+                ));
+            }
             return Err(Fail::new(
                 "pty/chunk-torn-or-corrupted",
                 format!("chunk #{i} ({} bytes) arrives only up to byte {upto}", c.bytes.len()),
@@ -778,7 +880,7 @@ fn validate_stream(data: &[u8], chunks: &[Chunk], complete: bool) -> Result<Vec<
         p = end;
         next = i + 1;
     }
-    Ok(present)
+    Ok((present, requests))
 }
 
 fn fault() -> BoxedStrategy<Fault> {
@@ -815,6 +917,14 @@ impl Property for C16 {
         "C16"
     }
 
+    /// SIGWINCH raised by a session is process-wide: every terminal object alive in the process
+    /// would see it.  One worker process per shard keeps a session's signals to itself, which
+    /// makes witnesses replayable (the oracle itself does not depend on it: size requests are
+    /// accepted at every unit boundary of an escape-size session, Resize events are ignored).
+    fn isolate(&self) -> bool {
+        true
+    }
+
     fn level(&self) -> &'static str {
         // injected short writes / EAGAIN / EINTR patterns on the tty + model-based queue histories
         "fault_enumeration"
@@ -836,14 +946,17 @@ impl Property for C16 {
             3 => prop_oneof![Just(0u8), Just(5u8)].prop_map(TOp::Poll),
             1 => Just(TOp::PollUntilDrained),
             2 => Just(TOp::FramesDrop),
+            2 => Just(TOp::Winch),
         ];
         let pty = (
             proptest::collection::vec(top, 1..25),
             prop_oneof![2 => Just(0usize), 2 => 1usize..4096, 1 => 4096usize..65536],
             prop_oneof![2 => Just(0usize), 1 => 1usize..300],
             proptest::collection::vec(fault(), 0..8),
+            // every other session takes its size from escape sequences
+            any::<bool>(),
         )
-            .prop_map(|(ops, bite, pause_us, mut faults)| {
+            .prop_map(|(ops, bite, pause_us, mut faults, size_by_escape)| {
                 // make sure writes can make progress under the cyclic pattern
                 if !faults.is_empty() && !faults.iter().any(|f| matches!(f, Fault::None | Fault::Short(_))) {
                     faults.push(Fault::None);
@@ -881,7 +994,7 @@ impl Property for C16 {
                         faults.push(Fault::None);
                     }
                 }
-                Case::Pty { ops, bite, pause_us, faults }
+                Case::Pty { ops, bite, pause_us, faults, size_by_escape }
             });
         let render = (
             5u16..=24,
@@ -908,7 +1021,9 @@ impl Property for C16 {
     fn check(&self, case: &Case) -> Outcome {
         match case {
             Case::Queue { ops } => check_queue(ops),
-            Case::Pty { ops, bite, pause_us, faults } => check_pty(ops, *bite, *pause_us, faults),
+            Case::Pty { ops, bite, pause_us, faults, size_by_escape } => {
+                check_pty(ops, *bite, *pause_us, faults, *size_by_escape)
+            }
             Case::Render { rows, cols, total, release_at, filler, faults } => {
                 check_render(*rows, *cols, *total, *release_at, *filler, faults)
             }
@@ -920,7 +1035,7 @@ impl Property for C16 {
     }
 
     fn rule(&self) -> String {
-        "(a) ~92% of cases: 0-59 IOQueue operations (write 0-39 bytes, flush, read into 0-49 byte buffers, fill_buf+consume(k), consume_with(k), clear_but_last) against a deque-of-chunks model: after every operation len() must equal the bytes still readable, as_slice/is_empty/chunks_count must match, and over the whole history the bytes read must equal the model's. (b) ~8% of cases (~230 sessions per shard in quick): a real SystemTerminal on a pseudo-terminal, 1-24 operations (write records of 1-200 / ~4096 / 8 KiB-64 KiB (thorough 256 KiB) bytes, execute, flush, poll(0|5 ms), poll-until-drained, frames_drop), a peer that drains 1-65536 bytes per read with 0-300 us pauses, and a cyclic pattern of injected short writes / EAGAIN / EINTR on the tty; every flush-delimited chunk starts with a unique header; the bytes received on the master side must parse into whole chunks in increasing order, each at most once, and every chunk written after the last frames_drop must be present. non-trivial = (a) >=4 operations with a drop or >8 bytes delivered, (b) a chunk larger than 8 KiB together with injected write faults or a throttled peer".into()
+        "(a) ~92% of cases: 0-59 IOQueue operations (write 0-39 bytes, flush, read into 0-49 byte buffers, fill_buf+consume(k), consume_with(k), clear_but_last) against a deque-of-chunks model: after every operation len() must equal the bytes still readable, as_slice/is_empty/chunks_count must match, and over the whole history the bytes read must equal the model's. (b) ~8% of cases (~230 sessions per shard in quick): a real SystemTerminal on a pseudo-terminal, 1-24 operations (write records of 1-200 / ~4096 / 8 KiB-64 KiB (thorough 256 KiB) bytes, execute, flush, poll(0|5 ms), poll-until-drained, frames_drop, raise(SIGWINCH) in-process -- about one operation in ten, so two sessions in three contain at least one), a peer that drains 1-65536 bytes per read with 0-300 us pauses, and a cyclic pattern of injected short writes / EAGAIN / EINTR on the tty; every flush-delimited chunk starts with a unique header; the bytes received on the master side must parse into whole chunks in increasing order, each at most once, and every chunk written after the last frames_drop must be present. Every other pty session runs on a pty whose ioctl reports no pixel size while the peer answers every CSI 18 t CSI 14 t with 24x80 cells / 480x800 pixels (checked through Terminal::size() after start-up): such a terminal object answers a SIGWINCH inside poll by queueing a size request of its own behind whatever output is pending (with ioctl sizes it only produces a Resize event); these requests are skipped by the receiving parser in front of a chunk header or at the end of the stream and nowhere else, the signal makes no chunk eligible for dropping, and events returned by poll (Resize included) are ignored. The check runs one worker process per shard, so a raised signal reaches only the terminal object of the session that raised it. non-trivial = (a) >=4 operations with a drop or >8 bytes delivered, (b) a chunk larger than 8 KiB together with injected write faults or a throttled peer".into()
     }
 
     fn assumptions(&self) -> Vec<String> {
@@ -929,6 +1044,9 @@ impl Property for C16 {
             "dropping fewer chunks than eligible is allowed (the property says 'only')".into(),
             "the queue model mirrors the documented chunking rules (flush starts a new chunk when the front chunk has unread bytes) and recomputes the length from its content".into(),
             "a session that exceeds the 20 s watchdog is inconclusive (exit 2), never a violation".into(),
+            "SIGWINCH is not one of the property's operations: whatever the terminal object does about it, chunks written and not followed by a frames_drop call of the program must still arrive whole, once, in order ('nothing lost ... however polling is interleaved with further output'; only frames_drop may discard)".into(),
+            "the size request CSI 18 t CSI 14 t that a terminal object in escape-sequence size mode writes while handling SIGWINCH inside poll is output of the library, not of the program; the program is inside poll at that moment, and a poll ends the unit being written, so the request may appear only between two units (in front of a header or at the end); a request between bytes that the program wrote without an intervening poll would break 'exact concatenation of the encoded bytes' and is reported as a torn chunk. Whether a request is sent at all, and whether it survives a later frames_drop, is not checked".into(),
+            "sessions with ioctl pixel sizes must not contain a size request at all (the library documents the request as the fallback only)".into(),
         ]
     }
 }
